@@ -40,7 +40,7 @@ func bench() {
 		red := reduceText(src, 1, func(s string) bool { n++; return parseOnly(s, 1, probe(len(s))).Kind == "fuel" })
 		fmt.Printf("reduce: %d tests, %v cpu, -> %d bytes %q\n", n, cpuNow()-t, len(red), red)
 		t = cpuNow()
-		k, d, _ := decideHang(src, 1)
+		k, d, _, _ := decideHang(src, 1)
 		fmt.Println("attribute total:", cpuNow()-t, k, d)
 		os.Exit(0)
 	}
